@@ -523,7 +523,8 @@ namespace xsimd
     template <class T, class = typename std::enable_if<std::is_scalar<T>::value>::type>
     XSIMD_INLINE bool is_odd(const T& x) noexcept
     {
-        return is_even(x - 1.);
+        // x - 1 is not exact for large floating-point values (all of which are even integers)
+        return std::is_floating_point<T>::value ? (is_flint(x) && !is_even(x)) : is_even(x - 1.);
     }
 
     XSIMD_INLINE int32_t nearbyint_as_int(float var) noexcept
